@@ -73,7 +73,7 @@ def alg_cases(rng, tier):
         ks = [rng.choice(KS)] if rng.random() < 0.7 else [rng.choice([1, 2]), rng.choice([0, 2, 3, 5, 50])]
         for k in ks:
             for alg in ALGS:
-                ty = "I" if (i % 3 == ALGS.index(alg)) and 2 * sum(w for _, _, w in g[1]) < 2 ** 31 - 1 else "D"
+                ty = "I" if (i % 3 == ALGS.index(alg)) and gen.int_domain_ok(g) else "D"
                 scale = 0 if ty == "I" else rng.choice([0, 0, -3, 5])
                 cases.append("X %s %s %d %d %s" % (alg, ty, scale, k, gt))
     return cases
